@@ -1,4 +1,4 @@
-"""Failing inputs for the findings F1..F19 (F18 is open), run against the real code (not part of any check).
+"""Failing inputs for the findings F1..F21 (F2, F18 are open), run against the real code (not part of any check).
 usage: /venv/bin/python findings/repro.py     -> prints DEFECT / ok per finding"""
 import signal, sys
 from fractions import Fraction as F
@@ -177,7 +177,35 @@ def f19():
     return True if c.ctrlpoints is not None and tuple(c.knotvector) == (0, 0, 1, 2, 2) else f"after the refused knot_insert([0, 2]): knotvector {tuple(c.knotvector)}, ctrlpoints {c.ctrlpoints}"
 
 
-for i, fn in enumerate([f1, f2, f3, f4, f5, f6, f7, f8, f9, f10, f11, f12, f13, f14, f15, f16, f17, f18, f19], 1):
+def f20():
+    def mk(scale):
+        c = Curve([F(0), F(0), F(0), F(1, 2), F(1), F(1), F(1)], [F(1), F(2), F(0), F(3)])
+        c.weights = [scale * w for w in (F(1), F(2), F(1), F(3))]
+        return c
+
+    us = [F(i, 8) for i in range(9)]
+    ref = [mk(1)(u) for u in us]
+    b = mk(1)
+    b.knot_insert([F(1, 4)])
+    b.knot_remove([F(1, 4)])
+    if [b(u) for u in us] != ref:
+        return f"insert then remove 1/4 moved the rational curve by {float(max(abs(x - y) for x, y in zip([b(u) for u in us], ref))):.3g}"
+    c = mk(2)
+    c.degree_increase(1)
+    c.degree_decrease(1)
+    return True if [c(u) for u in us] == ref else "elevate + reduce changed the rational curve"
+
+
+def f21():
+    U = [F(0), F(0), F(0), F(1, 3), F(2, 3), F(2, 3), F(1), F(1), F(1)]
+    A = Curve(U, [F(0), F(1), F(0), F(3), F(-1), F(2)])
+    B = Curve([F(0), F(0), F(1), F(1)], [F(1), F(2)])
+    C = A * B
+    bad = [u for u in [F(i, 12) for i in range(13)] if C(u) != A(u) * B(u)]
+    return True if not bad else f"(A*B)(u) != A(u)*B(u) at {len(bad)} of 13 nodes, e.g. u = {bad[0]}: {C(bad[0])} vs {A(bad[0]) * B(bad[0])}"
+
+
+for i, fn in enumerate([f1, f2, f3, f4, f5, f6, f7, f8, f9, f10, f11, f12, f13, f14, f15, f16, f17, f18, f19, f20, f21], 1):
     if len(sys.argv) > 1 and f"F{i}" not in sys.argv[1:]:
         continue
     t(f"F{i}", fn)
